@@ -50,6 +50,7 @@ partial def parseWait (s : IS) : List String → IS × Wait
   | "write" :: p :: n :: _ => (s, .write (strIdx s p) n.toNat!)
   | "writet" :: p :: n :: us :: _ => (s, .timed us.toNat! (.write (strIdx s p) n.toNat!))
   | "pwait" :: k :: _ => (s, .pwait ((indexOf s.procs k).getD 999))
+  | "twait" :: k :: _ => (s, .twait ((indexOf s.thrs k).getD 999))
   | _ => (s, .sleep 0)
 
 def parseStmt (s : IS) : List String → IS × Option Stmt
@@ -66,6 +67,7 @@ def parseStmt (s : IS) : List String → IS × Option Stmt
   | ["enter"] => (s, some .enter)
   | ["leave"] => (s, some .leave)
   | ["goself"] => (s, some .goSelf)
+  | ["finish", k] => (s, some (.finish ((indexOf s.thrs k).getD 999)))
   | _ => (s, none)
 
 def parseRes (t : String) : KRes :=
@@ -114,8 +116,8 @@ def showPending (w : World) (l : List Pending) : String :=
 def stepLine (s : DS) (toks : List String) : DS × String :=
   let op (o : Op) : DS × String := ({ s with w := step s.cfg s.w o }, "ok")
   match toks with
-  | ["cfg", a1, a2, a3, a4, a5, a6, a7, a8, a9, a10, a11, a12, a13, a14, a15, a16] =>
-      ({ s with cfg := ⟨b a1, b a2, b a3, b a4, b a5, b a6, b a7, b a8, b a9, b a10, b a11, b a12, b a13, b a14, b a15, b a16⟩ }, "ok")
+  | ["cfg", a1, a2, a3, a4, a5, a6, a7, a8, a9, a10, a11, a12, a13, a14, a15, a16, a17] =>
+      ({ s with cfg := ⟨b a1, b a2, b a3, b a4, b a5, b a6, b a7, b a8, b a9, b a10, b a11, b a12, b a13, b a14, b a15, b a16, b a17⟩ }, "ok")
   | ["reset"] => ({ s with w := {} }, "ok")
   | ["new", _] => ({ s with sc := { cfg := s.cfg }, cur := none }, "ok")
   | ["chan", name, cap] =>
@@ -129,6 +131,9 @@ def stepLine (s : DS) (toks : List String) : DS × String :=
       let sc := s.sc
       let x := flags.toList.contains 'x'
       ({ s with sc := { sc with procs := sc.procs.push name, w := step sc.cfg sc.w (.procFlag sc.procs.size x) } }, "ok")
+  | ["thr", name, kind] =>
+      let sc := s.sc
+      ({ s with sc := { sc with thrs := sc.thrs.push name, thrShell := sc.thrShell.push (kind == "shell") } }, "ok")
   | "k" :: rest =>
       match Scn.parseK rest with
       | some k => ({ s with sc := { s.sc with kin := s.sc.kin ++ [k] } }, "ok")
